@@ -15,6 +15,13 @@ document the writer emits: the last open hypothesis of C02 (`WF.C02_closed_file`
   4. what is collected: `gather_pointCloud`, `gather_root_one`, **`walk_one_cloud`** (one cloud, no image),
   5. **`C02_closed_file_walked`**: `Closed.C02_closed_file_closed` with the walk discharged;
   5b. **`walk_clouds`**: any number of point clouds (no images): `points = cloudRefs ft exts 0 pcs`.
+  5c. documents WITH images: `quiet_*` (metadata publishes nothing, no hypothesis), `gather_rep`, `gather_image`;
+      **`gather_points_image`** (an image publishes no points), `imageBlobRefs` + **`gather_blobs_image`** (the blob
+      references of an image), `gather_root_all`, `imagesBlobRefs` + **`walk_clouds_images`** (any clouds, any
+      images: `points = cloudRefs ft exts 0 pcs`, `blobs = imagesBlobRefs 0 imgs`).
+  5d. **`C02_closed_file_walked_images`**: `C02_closed_file_walked` with `e.imgs` arbitrary (from `WF.C02_decodeFile`),
+      under `WF.BlobOk` of every published blob reference; **`blobOk_before_section`** discharges that for a blob
+      written right before the section.  Open: the link between `e.imgs` and the `blobWrite` calls in a session.
   6. `Example`: all hypotheses hold for `MT.Example`; the walk evaluated by the kernel; `WalkOk` rejects bad trees.
 Hypotheses are those of `MT.C04_document_roundtrip`: `MT.F64OK` of the creation time, `MT.PointCloud.OK`,
 `MT.Image.OK` (floats printed by `ft` parse back with `fp`; integers `i64`, offsets/counts `u64`, dimensions `u32`;
@@ -1207,6 +1214,453 @@ theorem walk_clouds (ft : FloatText) (fp : FloatParse) (root : Root) (pcs : List
 
 end Many
 
+/-! ## 5c. documents with images -/
+
+section Images
+open E57.MT
+
+/-! ### metadata publishes nothing, without hypotheses -/
+
+theorem quiet_string (p0 : Option String) (tag v : String) : quiet (genStringTree p0 tag v) = true := by
+  simp [genStringTree, el, quiet, quietBody, XNode.attr, tattr, at_]
+
+theorem quiet_int (p0 : Option String) (tag : String) (v : Int) : quiet (genIntTree p0 tag v) = true := by
+  simp [genIntTree, el, quiet, quietBody, XNode.attr, tattr, at_]
+
+theorem quiet_float (ft : FloatText) (p0 : Option String) (tag : String) (v : UInt64) :
+    quiet (genFloatTree ft p0 tag v) = true := by
+  simp [genFloatTree, el, quiet, quietBody, XNode.attr, tattr, at_]
+
+theorem quiet_dateTime (ft : FloatText) (p0 : Option String) (d : DateTime) (tag : String) :
+    quiet (DateTime.tree ft p0 d tag) = true := by
+  apply quiet_structT
+  simp only [List.all_cons, List.all_nil, Bool.and_true, Bool.and_eq_true]
+  exact ⟨quiet_float ft p0 _ _, by simp [el, quiet, quietBody, XNode.attr, tattr, at_]⟩
+
+theorem quiet_transform (ft : FloatText) (p0 : Option String) (t : Transform) (tag : String) :
+    quiet (Transform.tree ft p0 t tag) = true := by
+  apply quiet_structT
+  simp only [List.all_cons, List.all_nil, Bool.and_true, Bool.and_eq_true]
+  constructor <;>
+  · apply quiet_structT
+    simp only [List.all_cons, List.all_nil, quiet_float, Bool.and_self]
+
+variable {α : Type} (f : String → String → XNode → List α)
+
+/-- an optional quiet child publishes nothing -/
+theorem gatherList_sep_optT_quiet {β : Type} (hf : ∀ p ty n, ty ≠ "CompressedVector" → ty ≠ "Blob" → f p ty n = [])
+    (path : String) (k : Nat) (o : Option β) (g : β → XNode) (hg : ∀ a, quiet (g a) = true) :
+    gatherList f path false k (sep (optT o g)) = [] := by
+  apply gatherList_quiet f hf
+  apply quietList_sep
+  cases o with
+  | none => rfl
+  | some a => simp [optT, hg a]
+
+/-- an optional element child publishes what it publishes -/
+theorem gatherList_sep_optT {β : Type} (path : String) (k : Nat) (o : Option β) (g : β → XNode)
+    (hg : ∀ a, (g a).isElement = true) :
+    gatherList f path false k (sep (optT o g)) = (match o with | some a => gather f path (g a) | none => []) := by
+  cases o with
+  | none => rfl
+  | some a =>
+    simp only [optT]
+    rw [gatherList_sep_single f _ _ _ _ (hg a)]
+    rfl
+
+/-- a Blob leaf -/
+theorem gather_blobRef (path : String) (p0 : Option String) (b : BlobRef) (tag : String) :
+    gather f path (BlobRef.tree p0 b tag) = f (path ++ "/" ++ tag) "Blob" (BlobRef.tree p0 b tag) := by
+  have hq := qname_el p0 tag [tattr "Blob", at_ "fileOffset" (toString b.offset), at_ "length" (toString b.length)] []
+  rw [BlobRef.tree]
+  rw [el] at hq ⊢
+  rw [gather, hq]
+  simp [gatherBody, XNode.attr, tattr, at_]
+
+/-- the tag of the data blob of a representation -/
+def blobTag (b : ImageBlob) : String :=
+  match b.format with
+  | .png => "pngImage"
+  | .jpeg => "jpegImage"
+
+theorem ImageBlob_tree_eq (p0 : Option String) (b : ImageBlob) :
+    ImageBlob.tree p0 b = BlobRef.tree p0 b.data (blobTag b) := by
+  unfold ImageBlob.tree blobTag
+  cases b.format <;> rfl
+
+/-- what `f` publishes below a representation: the mask (if any) first — the walk conses —, then the data blob -/
+def repGather (path : String) (p0 : Option String) (blob : ImageBlob) (mask : Option BlobRef) : List α :=
+  (match mask with
+   | some m => f (path ++ "/" ++ "imageMask") "Blob" (BlobRef.tree p0 m "imageMask")
+   | none => [])
+  ++ f (path ++ "/" ++ blobTag blob) "Blob" (BlobRef.tree p0 blob.data (blobTag blob))
+
+/-- a representation: the data blob, the optional mask, then metadata -/
+theorem gather_rep (hf : ∀ p ty n, ty ≠ "CompressedVector" → ty ≠ "Blob" → f p ty n = [])
+    (path : String) (p0 : Option String) (tag : String) (blob : ImageBlob) (mask : Option BlobRef)
+    (rest : List XNode) (hq : rest.all quiet = true) :
+    gather f path (structT p0 tag
+        ([ImageBlob.tree p0 blob] ++ optT mask (fun m => BlobRef.tree p0 m "imageMask") ++ rest))
+      = repGather f (path ++ "/" ++ tag) p0 blob mask := by
+  rw [gather_structT, lines, gatherList_nl, sep_append, sep_append, gatherList_false_append,
+    gatherList_false_append, gatherList_quiet f hf (sep rest) _ false 0 (quietList_sep hq), List.nil_append,
+    gatherList_sep_optT f _ _ _ _ (fun _ => rfl), ImageBlob_tree_eq, gatherList_sep_single f _ _ _ _ rfl,
+    gather_blobRef]
+  unfold repGather
+  cases mask with
+  | none => rfl
+  | some m => simp only [gather_blobRef]; rfl
+
+
+/-- the data blob and the mask of a projection -/
+def Projection.blob : Projection → ImageBlob
+  | .pinhole p => p.blob
+  | .spherical p => p.blob
+  | .cylindrical p => p.blob
+def Projection.mask : Projection → Option BlobRef
+  | .pinhole p => p.mask
+  | .spherical p => p.mask
+  | .cylindrical p => p.mask
+def Projection.tag : Projection → String
+  | .pinhole _ => "pinholeRepresentation"
+  | .spherical _ => "sphericalRepresentation"
+  | .cylindrical _ => "cylindricalRepresentation"
+
+theorem gather_visualRef (hf : ∀ p ty n, ty ≠ "CompressedVector" → ty ≠ "Blob" → f p ty n = [])
+    (path : String) (p0 : Option String) (v : VisualRef) :
+    gather f path (VisualRef.tree p0 v)
+      = repGather f (path ++ "/" ++ "visualReferenceRepresentation") p0 v.blob v.mask := by
+  unfold VisualRef.tree
+  exact gather_rep f hf path p0 _ v.blob v.mask _ (by simp [quiet_int])
+
+theorem gather_projection (hf : ∀ p ty n, ty ≠ "CompressedVector" → ty ≠ "Blob" → f p ty n = [])
+    (path : String) (ft : FloatText) (p0 : Option String) (p : Projection) :
+    gather f path (Projection.tree ft p0 p)
+      = repGather f (path ++ "/" ++ Projection.tag p) p0 (Projection.blob p) (Projection.mask p) := by
+  cases p with
+  | pinhole v =>
+    unfold Projection.tree Pinhole.tree
+    exact gather_rep f hf path p0 _ v.blob v.mask _ (by simp [quiet_int, quiet_float])
+  | spherical v =>
+    unfold Projection.tree SphericalImg.tree
+    exact gather_rep f hf path p0 _ v.blob v.mask _ (by simp [quiet_int, quiet_float])
+  | cylindrical v =>
+    unfold Projection.tree Cylindrical.tree
+    exact gather_rep f hf path p0 _ v.blob v.mask _ (by simp [quiet_int, quiet_float])
+
+/-- what `f` publishes below an image element (`path` is the path of its parent, with the index): the projection
+    (later in the document) first, then the visual reference -/
+def imageGather (path : String) (p0 : Option String) (i : Image) : List α :=
+  (match i.projection with
+   | some p => repGather f (path ++ "/" ++ "vectorChild" ++ "/" ++ Projection.tag p) p0 (Projection.blob p)
+       (Projection.mask p)
+   | none => [])
+  ++ (match i.visualReference with
+   | some v => repGather f (path ++ "/" ++ "vectorChild" ++ "/" ++ "visualReferenceRepresentation") p0 v.blob v.mask
+   | none => [])
+
+theorem isElement_structT (p0 : Option String) (tag : String) (kids : List XNode) :
+    (structT p0 tag kids).isElement = true := rfl
+
+theorem gather_image (hf : ∀ p ty n, ty ≠ "CompressedVector" → ty ≠ "Blob" → f p ty n = [])
+    (path : String) (ft : FloatText) (p0 : Option String) (i : Image) :
+    gather f path (Image.tree ft p0 i) = imageGather f path p0 i := by
+  unfold Image.tree
+  rw [gather_structT, lines, gatherList_nl]
+  simp only [sep_append, gatherList_false_append]
+  rw [gatherList_sep_optT_quiet f hf _ _ i.guid _ (quiet_string p0 _),
+    gatherList_sep_optT_quiet f hf _ _ i.transform _ (fun t => quiet_transform ft p0 t _),
+    gatherList_sep_optT_quiet f hf _ _ i.pointcloudGuid _ (quiet_string p0 _),
+    gatherList_sep_optT_quiet f hf _ _ i.name _ (quiet_string p0 _),
+    gatherList_sep_optT_quiet f hf _ _ i.description _ (quiet_string p0 _),
+    gatherList_sep_optT_quiet f hf _ _ i.acquisition _ (fun d => quiet_dateTime ft p0 d _),
+    gatherList_sep_optT_quiet f hf _ _ i.sensorVendor _ (quiet_string p0 _),
+    gatherList_sep_optT_quiet f hf _ _ i.sensorModel _ (quiet_string p0 _),
+    gatherList_sep_optT_quiet f hf _ _ i.sensorSerial _ (quiet_string p0 _),
+    gatherList_sep_optT f _ _ i.visualReference _ (fun _ => rfl),
+    gatherList_sep_optT f _ _ i.projection _ (fun p => by cases p <;> rfl)]
+  simp only [List.nil_append, List.append_nil]
+  unfold imageGather
+  cases i.projection <;> cases i.visualReference <;> simp only [gather_visualRef f hf, gather_projection f hf]
+
+/-! ### item 1: images publish no points, and these blobs -/
+
+theorem repGather_points (path : String) (p0 : Option String) (blob : ImageBlob) (mask : Option BlobRef) :
+    repGather pointsAt path p0 blob mask = [] := by
+  cases mask <;> simp [repGather, pointsAt]
+
+/-- **an image publishes no points** (no hypothesis: images contain no CompressedVector) -/
+theorem gather_points_image (path : String) (ft : FloatText) (p0 : Option String) (i : Image) :
+    gather pointsAt path (Image.tree ft p0 i) = [] := by
+  rw [gather_image pointsAt pointsAt_quiet]
+  unfold imageGather
+  cases i.projection <;> cases i.visualReference <;> simp [repGather_points]
+
+/-- the reference the walk publishes for a Blob element `tag` below `path` -/
+def blobRefAt (path tag : String) (b : BlobRef) : String × Nat × Nat := (path ++ "/" ++ tag, b.offset, b.length)
+
+/-- the blob references of a representation at `path`, LAST FIRST: the mask (if any), then the data blob -/
+def repBlobRefs (path : String) (blob : ImageBlob) (mask : Option BlobRef) : List (String × Nat × Nat) :=
+  (match mask with
+   | some m => [blobRefAt path "imageMask" m]
+   | none => [])
+  ++ [blobRefAt path (blobTag blob) blob.data]
+
+/-- **the blob references of an image**, LAST FIRST (the walk conses), mirroring `MT.Image.tree`; `path` is the path
+    of the parent with the index (`/e57Root/images2D[k]`): the projection's mask and data blob, then the visual
+    reference's mask and data blob -/
+def imageBlobRefs (path : String) (i : Image) : List (String × Nat × Nat) :=
+  (match i.projection with
+   | some p => repBlobRefs (path ++ "/" ++ "vectorChild" ++ "/" ++ Projection.tag p) (Projection.blob p)
+       (Projection.mask p)
+   | none => [])
+  ++ (match i.visualReference with
+   | some v => repBlobRefs (path ++ "/" ++ "vectorChild" ++ "/" ++ "visualReferenceRepresentation") v.blob v.mask
+   | none => [])
+
+theorem blobsAt_blobRef (p : String) (p0 : Option String) (b : BlobRef) (tag : String) (h : BlobOK b) :
+    blobsAt p "Blob" (BlobRef.tree p0 b tag) = [(p, b.offset, b.length)] := by
+  have h1 : natAttr (BlobRef.tree p0 b tag) "fileOffset" = b.offset :=
+    natAttr_of (by simp [BlobRef.tree, el, XNode.attr, tattr, at_]) h.1
+  have h2 : natAttr (BlobRef.tree p0 b tag) "length" = b.length :=
+    natAttr_of (by simp [BlobRef.tree, el, XNode.attr, tattr, at_]) h.2
+  rw [blobsAt, if_pos rfl, h1, h2]
+
+theorem repGather_blobs (path : String) (p0 : Option String) (blob : ImageBlob) (mask : Option BlobRef)
+    (hb : BlobOK blob.data) (hm : ∀ m, mask = some m → BlobOK m) :
+    repGather blobsAt path p0 blob mask = repBlobRefs path blob mask := by
+  unfold repGather repBlobRefs blobRefAt
+  rw [blobsAt_blobRef _ _ _ _ hb]
+  cases mask with
+  | none => rfl
+  | some m => simp only [blobsAt_blobRef _ _ _ _ (hm m rfl)]
+
+theorem Projection.blobOK {ft : FloatText} {fp : FloatParse} {p : Projection} (ok : Projection.OK ft fp p) :
+    BlobOK (Projection.blob p).data ∧ ∀ m, Projection.mask p = some m → BlobOK m := by
+  cases p with
+  | pinhole v => exact ⟨Pinhole.OK.blob ok, Pinhole.OK.mask ok⟩
+  | spherical v => exact ⟨SphericalImg.OK.blob ok, SphericalImg.OK.mask ok⟩
+  | cylindrical v => exact ⟨Cylindrical.OK.blob ok, Cylindrical.OK.mask ok⟩
+
+/-- **the blobs an image publishes**: `imageBlobRefs` (offsets and lengths are `u64`: `Image.OK`) -/
+theorem gather_blobs_image (path : String) (ft : FloatText) (fp : FloatParse) (p0 : Option String) (i : Image)
+    (ok : Image.OK ft fp i) :
+    gather blobsAt path (Image.tree ft p0 i) = imageBlobRefs path i := by
+  rw [gather_image blobsAt blobsAt_quiet]
+  unfold imageGather imageBlobRefs
+  congr 1
+  · cases hp : i.projection with
+    | none => rfl
+    | some p =>
+      have := Projection.blobOK (ok.projection p hp)
+      exact repGather_blobs _ _ _ _ this.1 this.2
+  · cases hv : i.visualReference with
+    | none => rfl
+    | some v =>
+      have := ok.visualReference v hv
+      exact repGather_blobs _ _ _ _ this.blob this.mask
+
+/-! ### item 2: the whole document -/
+
+/-- the references of a document: those of its images (later in the document, so first), then those of its
+    point clouds -/
+theorem gather_root_all (hf : ∀ p ty n, ty ≠ "CompressedVector" → ty ≠ "Blob" → f p ty n = [])
+    (ft : FloatText) (fp : FloatParse) (root : Root) (pcs : List PointCloud) (imgs : List Image)
+    (exts : List (String × String))
+    (hcr : ∀ d, root.creation = some d → F64OK ft fp d.gpsTime) :
+    gather f "" (rootTree ft root pcs imgs exts)
+      = gatherIdx f ("" ++ "/" ++ "e57Root" ++ "/" ++ "images2D") 0 (imgs.map (Image.tree ft (e57Prefix exts)))
+        ++ gatherIdx f ("" ++ "/" ++ "e57Root" ++ "/" ++ "data3D") 0 (pcs.map (PointCloud.tree ft exts)) := by
+  have hd : (vectorT (e57Prefix exts) "data3D" (pcs.map (PointCloud.tree ft exts))).isElement = true := rfl
+  have hi : (vectorT (e57Prefix exts) "images2D" (imgs.map (Image.tree ft (e57Prefix exts)))).isElement = true := rfl
+  rw [rootTree_eq', gather_structT_meta f _ _ _ _ _ hf (all_metaOk (rootHead_ok fp [] ft root _ hcr)).2]
+  simp only [sep]
+  rw [gatherList_elem f _ _ _ _ _ hd, gatherList_nl, gatherList_elem f _ _ _ _ _ hi, gatherList_nl]
+  rw [gather_vectorT, gather_vectorT]
+  simp only [lines]
+  rw [gatherList_nl, gatherList_nl, gatherList_sep_idx f _ _ _ (by
+    intro x hx
+    obtain ⟨i, _, rfl⟩ := List.mem_map.1 hx
+    rfl), gatherList_sep_idx f _ _ _ (by
+    intro x hx
+    obtain ⟨pc, _, rfl⟩ := List.mem_map.1 hx
+    rw [PointCloud_tree_eq]; rfl)]
+  simp only [gatherList, List.nil_append, Bool.false_eq_true, if_false]
+
+theorem gatherIdx_images_points (ft : FloatText) (p0 : Option String) (path : String) :
+    ∀ (imgs : List Image) (k : Nat), gatherIdx pointsAt path k (imgs.map (Image.tree ft p0)) = []
+  | [], _ => rfl
+  | i :: imgs, k => by
+    rw [List.map_cons, gatherIdx, gatherIdx_images_points ft p0 path imgs (k + 1), gather_points_image]
+    rfl
+
+/-- the path the walk gives the `k`-th child of `images2D` -/
+def imagePath (k : Nat) : String := "" ++ "/" ++ "e57Root" ++ "/" ++ "images2D" ++ s!"[{k}]"
+
+/-- the blob references of all images from index `k` on, LAST FIRST (the walk conses) -/
+def imagesBlobRefs : Nat → List Image → List (String × Nat × Nat)
+  | _, [] => []
+  | k, i :: imgs => imagesBlobRefs (k + 1) imgs ++ imageBlobRefs (imagePath k) i
+
+theorem gatherIdx_images_blobs (ft : FloatText) (fp : FloatParse) (p0 : Option String) :
+    ∀ (imgs : List Image) (k : Nat), (∀ i ∈ imgs, Image.OK ft fp i) →
+      gatherIdx blobsAt ("" ++ "/" ++ "e57Root" ++ "/" ++ "images2D") k (imgs.map (Image.tree ft p0))
+        = imagesBlobRefs k imgs
+  | [], _, _ => rfl
+  | i :: imgs, k, h => by
+    rw [List.map_cons, gatherIdx, gatherIdx_images_blobs ft fp p0 imgs (k + 1) (fun j hj => h j (by simp [hj])),
+      gather_blobs_image _ ft fp p0 i (h i (by simp))]
+    rfl
+
+/-- **item 2: the walk over the writer's document, images allowed**: it succeeds; `points` has one entry per point
+    cloud as in `walk_clouds` (images do not disturb it); `blobs` is the concatenation of `imageBlobRefs` over the
+    images at the paths `/e57Root/images2D[k]/vectorChild/…`, in reverse document order -/
+theorem walk_clouds_images (ft : FloatText) (fp : FloatParse) (root : Root) (pcs : List PointCloud)
+    (imgs : List Image) (exts : List (String × String))
+    (hcr : ∀ d, root.creation = some d → F64OK ft fp d.gpsTime)
+    (okpc : ∀ pc ∈ pcs, PointCloud.OK ft fp exts pc) (okimg : ∀ i ∈ imgs, Image.OK ft fp i) :
+    ∃ w, walkNode fp (declaredOf exts) "" (rootTree ft root pcs imgs exts) {} = .ok w ∧
+      w.points = cloudRefs ft exts 0 pcs ∧ w.blobs = imagesBlobRefs 0 imgs := by
+  have hw := rootTree_walkOk fp ft root pcs imgs exts hcr okpc okimg
+  obtain ⟨w, e, hp, hb⟩ := walkNode_spec fp (declaredOf exts) _ "" {} hw
+  refine ⟨w, e, ?_, ?_⟩
+  · rw [hp, gather_root_all pointsAt pointsAt_quiet ft fp root pcs imgs exts hcr, gatherIdx_images_points,
+      gatherIdx_points ft fp exts pcs 0 okpc]
+    exact List.append_nil _
+  · rw [hb, gather_root_all blobsAt blobsAt_quiet ft fp root pcs imgs exts hcr,
+      gatherIdx_images_blobs ft fp _ imgs 0 okimg, gatherIdx_blobs ft fp exts _ pcs 0 okpc, List.append_nil]
+    exact List.append_nil _
+
+end Images
+
+/-! ## 5d. C02 on the closed file, images allowed -/
+
+section CapstoneImages
+open E57.MT
+
+open WF Closed Session in
+/-- **`C02_closed_file_walked` with images allowed** (`e.imgs` arbitrary).  Proved from `WF.C02_decodeFile` (which
+    takes the blob references the walk publishes) instead of `Closed.C02_closed_file_closed` (which demands
+    `w.blobs = []`).  As there, the file is closed right behind the point-cloud section (`e.pw = pw2`) and the writer
+    state holds one point cloud `pc'` with the section's offset, count and prototype.  Then the decoder's walk
+    SUCCEEDS, `w.blobs = imagesBlobRefs 0 e.imgs`, and `Spec.decodeFile` returns the points added and, for every
+    image blob in document order, its path and the bytes `bd` names.
+    The one hypothesis that is new and NOT discharged here is binary, not XML: every blob reference of `e.imgs` must
+    point at a blob section of the closed file (`WF.BlobOk … (bd x)`, i.e. offset legal and 4-aligned, id 0, zero
+    reserved bytes, section length = 16 + length padded, data = `bd x`).  `WF.blobOk_of_final` gives exactly this for
+    a blob written by `blobWrite` whose window is still in `e.pw.abs.data` (`blob_keeps_window`,
+    `later_section_keeps_window`); what is missing to discharge it is the link between `e.imgs` and the `blobWrite`
+    calls that produced their `BlobRef`s (the session invariant of `Session.lean` keeps no such record).
+    `blobOk_before_section` below discharges it for one blob written right before the section. -/
+theorem C02_closed_file_walked_images (pw : PW) (exts : List (String × String)) (guid : String)
+    (proto : Prototype) (pts : List (List Value))
+    (hpw : pw.Inv) (hal : pw.abs.cur % 4 = 0) (h48 : 48 ≤ pw.abs.cur)
+    (hi : ProtoI64 proto) (hn : NoDupNames proto)
+    (pw0 : PW) (w0 : PcW) (hnew : PcW.new pw exts guid proto = .ok (pw0, w0))
+    (hpts : ∀ pt ∈ pts, pt.length = proto.length ∧ checkValues proto pt = true) :
+    ∃ pw1 w1 pw2 w2 pc,
+      addPoints pts (pw0, w0) = .ok (pw1, w1) ∧ w1.finalize pw1 = .ok (pw2, w2, pc) ∧
+      ∀ (ft : FloatText) (e e' : EW) (pc' : PointCloud),
+        e.pw = pw2 → EW.finalize ft e (fun x => some x) = .ok e' → e'.pw.dev.data.length < 2 ^ 64 →
+        XmlP.InputOK ft e.root e.pcs e.imgs e.exts →
+        e.pcs = [pc'] →
+        pc'.fileOffset = pc.fileOffset → pc'.records = pc.records → pc'.prototype = proto →
+        PagesOk e'.pw.dev.data e'.pw.abs.data ∧
+        CloudOk e'.pw.dev.data e'.pw.abs.data pc.fileOffset pc.records proto.length (pointBits proto = 0)
+          (dataChunks (Layout.streamsOf (specTypes proto) (specPoints pts)) (emitted pw exts guid proto pts)
+            (List.replicate (specTypes proto).length 0)) ∧
+        ∃ xml doc, serializeRoot ft e.root e.pcs e.imgs e.exts = some xml ∧
+          leanXo (utf8 xml) = some doc ∧ MT.rootDoc ft e.root e.pcs e.imgs e.exts = some doc ∧
+          HeaderOk e'.pw.dev.data e'.pw.abs.data (utf8 xml) ∧
+          ∀ (fp : FloatParse), (∀ d, e.root.creation = some d → F64OK ft fp d.gpsTime) →
+            PointCloud.OK ft fp e.exts pc' → (∀ i ∈ e.imgs, Image.OK ft fp i) →
+            ∀ (bd : String × Nat × Nat → Bytes),
+              (∀ x ∈ imagesBlobRefs 0 e.imgs, BlobOk e'.pw.dev.data e'.pw.abs.data x.2.1 x.2.2 (bd x)) →
+            ∃ w, walkNode fp (doc.rootNamespaces.map (·.2)) "" doc.root {} = .ok w ∧
+              w.blobs = imagesBlobRefs 0 e.imgs ∧
+              decodeFile e'.pw.dev.data (utf8 xml) doc fp []
+                = .ok ⟨w.leaves.reverse,
+                    [(cloudPath, pts.map (fun p => (List.range proto.length).map (fun i =>
+                      entryText (Layout.dtAt proto i) (p.getD i (.integer 0)))))],
+                    (imagesBlobRefs 0 e.imgs).reverse.map (fun x => (x.1, bd x))⟩ := by
+  obtain ⟨pw1, w1, pw2, w2, pc, e1, e2, L⟩ :=
+    writer_layout_legal pw exts guid proto hpw hal hi hn pw0 w0 hnew pts hpts
+  have hv := (PcW.new_ok pw exts guid proto pw0 w0 hnew).2.1
+  refine ⟨pw1, w1, pw2, w2, pc, e1, e2, ?_⟩
+  intro ft e e' pc' he hfin h64 hin hpcs hoff hrec hproto
+  subst he
+  have hc := L.cursor
+  have F : FinalFile ft e e' (fun x => some x) := ⟨L.inv, by omega, hfin, h64⟩
+  have hcur : pw.abs.cur + RoundTrip.sectionLen proto (emitted pw exts guid proto pts) ≤ e.pw.abs.cur := by
+    rw [hc]; unfold RoundTrip.sectionLen; omega
+  refine ⟨pagesOk_of_final F, cloudOk_of_final F L hal hi h48 hcur rfl, ?_⟩
+  obtain ⟨xml0, xml, hs, ht, hdec⟩ := C02_decodeFile F L hal h48 hv hi hpts hcur rfl
+  obtain ⟨xml0', xml', hs', ht', hH⟩ := headerOk_of_final F
+  rw [hs] at hs'; injection hs' with hs'; subst hs'
+  rw [ht] at ht'; injection ht' with ht'; subst ht'
+  cases ht
+  have hX := serializeRoot_nonempty ft _ _ _ _ xml0 hs
+  have hor := leanXo_serialize ft _ _ _ _ hin xml0 hs
+  have hsome : (MT.rootDoc ft e.root e.pcs e.imgs e.exts).isSome = true := by
+    rw [MT.rootDoc_isSome_iff, hs]; rfl
+  obtain ⟨doc, hdoc⟩ := Option.isSome_iff_exists.mp hsome
+  refine ⟨xml0, doc, hs, hor.trans hdoc, hdoc, hH hX, ?_⟩
+  intro fp hcr ok okimg bd hbd
+  have hd : doc = ⟨rootTree ft e.root [pc'] e.imgs e.exts, rootNamespaces e.exts⟩ := by
+    rw [hpcs] at hdoc
+    unfold rootDoc at hdoc
+    split at hdoc
+    · cases hdoc
+    · cases hdoc; rfl
+  obtain ⟨w, hw, hp, hb⟩ := walk_clouds_images ft fp e.root [pc'] e.imgs e.exts hcr
+    (by intro p hp; rw [List.mem_singleton] at hp; subst hp; exact ok) okimg
+  have hroot := rootDoc_root ft _ _ _ _ doc hdoc
+  subst hd
+  refine ⟨w, hw, hb, ?_⟩
+  have := hdec hX ⟨rootTree ft e.root [pc'] e.imgs e.exts, rootNamespaces e.exts⟩ fp w ⟨cloudPath, pc'.fileOffset, pc'.records, recsOf ft e.exts pc'.prototype⟩ [] bd hroot hw hp
+    hoff hrec (by rw [hproto]; exact recsOf_types ft fp e.exts proto (hproto ▸ ok.prototype))
+    (by intro x hx; rw [hb] at hx; simp at hx; exact hbd x hx)
+  rw [this, hb]
+  simp
+end CapstoneImages
+
+section BlobBefore
+open E57.MT
+
+open WF Closed Session in
+/-- **the binary hypothesis of `C02_closed_file_walked_images`, discharged for a blob written right before the
+    section**: `blobWrite pwb data = .ok (pw, b)` at a 4-aligned cursor behind the file header, then the point-cloud
+    session from `pw` (`new`, `addPoints`, `finalize` to `pw2`), then the file is closed (`e.pw = pw2`).  The
+    session leaves the blob's window alone (`RoundTrip.later_section_keeps_window`), so `WF.blobOk_of_final` applies:
+    the reference `b` points at a blob section of the closed file whose data is `data`.  Also returned: the
+    hypotheses `pw.Inv`, `pw.abs.cur % 4 = 0`, `48 ≤ pw.abs.cur` that `C02_closed_file_walked_images` asks of `pw`. -/
+theorem blobOk_before_section (pwb : PW) (data : Bytes) (hpwb : pwb.Inv) (halb : pwb.abs.cur % 4 = 0)
+    (h48b : 48 ≤ pwb.abs.cur) (pw : PW) (b : BlobRef) (hbw : blobWrite pwb data = .ok (pw, b))
+    (exts : List (String × String)) (guid : String) (proto : Prototype) (pts : List (List Value))
+    (hi : ProtoI64 proto) (hn : NoDupNames proto)
+    (pw0 : PW) (w0 : PcW) (hnew : PcW.new pw exts guid proto = .ok (pw0, w0))
+    (hpts : ∀ pt ∈ pts, pt.length = proto.length ∧ checkValues proto pt = true)
+    (pw1 : PW) (w1 : PcW) (pw2 : PW) (w2 : PcW) (pc : PointCloud)
+    (e1 : addPoints pts (pw0, w0) = .ok (pw1, w1)) (e2 : w1.finalize pw1 = .ok (pw2, w2, pc))
+    (ft : FloatText) (e e' : EW) (tr : String → Option String)
+    (he : e.pw = pw2) (hfin : EW.finalize ft e tr = .ok e') (h64 : e'.pw.dev.data.length < 2 ^ 64) :
+    pw.Inv ∧ pw.abs.cur % 4 = 0 ∧ 48 ≤ pw.abs.cur ∧
+      BlobOk e'.pw.dev.data e'.pw.abs.data b.offset b.length data := by
+  obtain ⟨hwin, _, hle, _, hpw, habs⟩ := BlobRT.blob_window pwb data hpwb pw b hbw
+  have hal : pw.abs.cur % 4 = 0 := by rw [habs]; exact (RoundTrip.align_cur _).1
+  obtain ⟨pw1', w1', pw2', w2', pc', e1', e2', L⟩ :=
+    writer_layout_legal pw exts guid proto hpw hal hi hn pw0 w0 hnew pts hpts
+  rw [e1] at e1'; cases e1'
+  rw [e2] at e2'; cases e2'
+  subst he
+  have hc := L.cursor
+  have F : FinalFile ft e e' tr := ⟨L.inv, by omega, hfin, h64⟩
+  refine ⟨hpw, hal, by omega, ?_⟩
+  refine blobOk_of_final F pwb data hpwb pw b hbw halb h48b (by omega) ?_
+  rw [RoundTrip.later_section_keeps_window L pwb.abs.cur (16 + data.length) (by omega)]
+  exact hwin
+end BlobBefore
+
 /-! ## 6. non-vacuity -/
 
 namespace Example
@@ -1248,6 +1702,25 @@ theorem walk_evaluated :
          [("/e57Root/images2D[0]/vectorChild/visualReferenceRepresentation/pngImage", 100, 20),
           ("/e57Root/images2D[0]/vectorChild/visualReferenceRepresentation/imageMask", 200, 5),
           ("/e57Root/images2D[0]/vectorChild/cylindricalRepresentation/jpegImage", 1, 2)]) := by decide +kernel
+
+/-- non-vacuity of `walk_clouds_images`, and `imagesBlobRefs` computed: the example with the image publishes the
+    point cloud and — last first — the cylindrical representation's blob, the visual reference's mask and blob
+    (the same three references `walk_evaluated` gets by running the walk, there reversed) -/
+theorem walk_images_example :
+    ∃ w, walkNode fp (declaredOf exts) "" (rootTree ft root [pc] [img] exts) {} = .ok w ∧
+      w.points = cloudRefs ft exts 0 [pc] ∧
+      w.blobs = [("/e57Root/images2D[0]/vectorChild/cylindricalRepresentation/jpegImage", 1, 2),
+        ("/e57Root/images2D[0]/vectorChild/visualReferenceRepresentation/imageMask", 200, 5),
+        ("/e57Root/images2D[0]/vectorChild/visualReferenceRepresentation/pngImage", 100, 20)] := by
+  have h := walk_clouds_images ft fp root [pc] [img] exts hcr
+    (by intro p hp; rw [List.mem_singleton] at hp; subst hp; exact pc_ok)
+    (by intro i hi; rw [List.mem_singleton] at hi; subst hi; exact img_ok)
+  have e : imagesBlobRefs 0 [img]
+      = [("/e57Root/images2D[0]/vectorChild/cylindricalRepresentation/jpegImage", 1, 2),
+        ("/e57Root/images2D[0]/vectorChild/visualReferenceRepresentation/imageMask", 200, 5),
+        ("/e57Root/images2D[0]/vectorChild/visualReferenceRepresentation/pngImage", 100, 20)] := by decide
+  rw [e] at h
+  exact h
 end Example
 
 end E57.WalkP
